@@ -99,7 +99,9 @@ def finalToString : Final → String
   | .outOfHops => "out-of-hops"
 
 def hopOutToString (h : HopOut) : String :=
-  let tls := match h.tlsName with | some n => hexOrDash n | none => "~"
+  let tls := match h.tlsName with
+    | some n => if h.tlsNameIsDomain then hexOrDash n else "no-sni"
+    | none => "~"
   s!"{hexOfBytes h.dialScheme}:{hexOfBytes h.dialHost}:{h.dialPort}:{hexOrDash h.wrote}:{tls}"
 
 /-- `send <METHOD> <cfg> <ops|-> <body> <url> <hops>`; hops separated by `|`.
